@@ -145,7 +145,8 @@ theorem readNextBlock_encodeBlock_gen (cfg : Cfg) (codec : Codec) (crc : Checksu
   have hc : (codec.enc (encodeEntries es)).length < 2 ^ 32 := enc_length_lt codec _ hu
   have hcrc : (crc (codec.enc (encodeEntries es))).toNat < 2 ^ 32 := UInt32.toNat_lt _
   have hdec := codec.law (encodeEntries es)
-  generalize hcdef : codec.enc (encodeEntries es) = c at hc hcrc hdec
+  have hdecl := codec.declOk (encodeEntries es)
+  generalize hcdef : codec.enc (encodeEntries es) = c at hc hcrc hdec hdecl
   have e0 : encodeBlock codec crc es ++ rest
       = encodeBlockHeader ⟨c.length, (encodeEntries es).length, es.length, (crc c).toNat, 0⟩ ++ (c ++ rest) := by
     simp [encodeBlock, hcdef]
@@ -165,7 +166,9 @@ theorem readNextBlock_encodeBlock_gen (cfg : Cfg) (codec : Codec) (crc : Checksu
       ⟨c.length, (encodeEntries es).length, es.length, (crc c).toNat, 0⟩ c
         = parseEntries es.length (encodeEntries es) := by
     unfold parseBlock
-    simp only [bne_self_eq_false, Bool.and_false, Bool.false_eq_true, if_false, hdec]
+    have hnd : (decide (32 * c.length + 64 < codec.toDecoder.declLen c)) = false := by
+      simp only [decide_eq_false_iff_not]; omega
+    simp only [bne_self_eq_false, Bool.and_false, Bool.false_eq_true, if_false, hdec, hnd]
     have : (encodeEntries es).length % 2 ^ 32 = (encodeEntries es).length := Nat.mod_eq_of_lt (by omega)
     simp only [this, bne_self_eq_false, Bool.and_false, Bool.false_eq_true, if_false]
   rw [hpb]
